@@ -35,6 +35,7 @@ ASSUMPTIONS.update({
     "pop_to_toplevel": "Stack::pop_to_toplevel (PROVED in unit abort): leaves exactly the top-level frame, with no pending expressions, no pending block bindings, at most the base value and the base bindings block",
     "vcount_failed": "`tests.iter().filter(|(_, err, _)| err.is_some()).count()` is the number of entries whose verdict is an error",
     "vcount_passed": "the same filter with `err.is_none()` counts the other entries",
+    "vs_contains": "String::contains is a function of the two texts", "vopt_string_or_default": "`name_contains.cloned().unwrap_or_default()` is the filter text, or the empty text",
     "vexit": "std::process::exit(code): the process ends with that status",
     "describe_tests": "describe_tests renders the summary (not verified: its numbers are computed from the same list)", "vf_print_string": "print!",
     "TestDefs": "-",
@@ -43,7 +44,7 @@ LEMMAS = {"lemma_failed_empty": {"C26"}}
 UNVERIFIED = {"C26": [
     "eval itself (whether a test's verdict depends on definitions, top-level variables or the namespace that an earlier test changed: pop_to_toplevel resets the evaluator stack, not the environment's globals)",
     "describe_tests' text (the counts it prints are computed from the same verdict list by the same filter), sandboxed_tests_summary's counters, `-n` name filtering",
-    "run_tests_in_files up to the call of eval_tests (parsing, loading, selecting the tests): only the part from eval_tests to the exit status is under contract",
+    "run_tests_in_files up to the selection of the tests (parsing and loading the files); the selection loop and the part from eval_tests to the exit status are under contract",
 ]}
 
 GLUE = """
@@ -136,6 +137,30 @@ pub fn describe_tests(env: &Env, summary: &ToplevelEvalSummary) -> (r: String) {
 pub fn vf_print_string(s: String) { unimplemented!() }
 """
 
+SELECT_GLUE = """
+impl Clone for ToplevelItem {
+    #[verifier::external_body]
+    fn clone(&self) -> (r: Self) ensures r == *self { unimplemented!() }
+}
+pub uninterp spec fn str_contains(a: Seq<char>, b: Seq<char>) -> bool;
+#[verifier::external_body]
+pub fn vs_contains(a: &String, b: &String) -> (r: bool) ensures r == str_contains(a@, b@) { unimplemented!() }
+pub open spec fn filter_text(f: Option<&String>) -> Seq<char> {
+    match f { Some(s) => s@, None => Seq::<char>::empty() }
+}
+#[verifier::external_body]
+pub fn vopt_string_or_default(f: Option<&String>) -> (r: String) ensures r@ == filter_text(f) { unimplemented!() }
+/// the test items of `items` whose name contains `f`, in order, one per occurrence
+pub open spec fn selected(items: Seq<ToplevelItem>, f: Seq<char>) -> Seq<ToplevelItem>
+    decreases items.len(),
+{
+    if items.len() == 0 { Seq::<ToplevelItem>::empty() } else {
+        let rest = selected(items.drop_last(), f);
+        if items.last() is Test && str_contains(items.last()->Test_0.name_sym.name.text@, f) { rest.push(items.last()) } else { rest }
+    }
+}
+"""
+
 WITNESSES = [
     {"match": r"testrun\.", "kind": "test", "props": ["C26"], "filename": "t.gdn",
      "input": "test passes { assert(1 == 1) }\n\ntest fails { assert(1 == 2) }\n\ntest passes_too { let x = 1 assert(x == 1) }\n",
@@ -148,6 +173,17 @@ WITNESSES = [
      "input": "fun boom() { throw(\"x\") }\n\ntest first_errors_in_a_callee { let leftover = 1  if True { boom() } }\n\ntest second_sees_nothing_of_the_first { let leftover = 2  assert(leftover == 2) }\n\ntest third { assert(1 == 1) }\n",
      "expect": {"py": "('2 passed and 1 failed' not in out and 'a failing test changed the verdict of a later test: ' + out[-300:]) or ''"},
      "note": "a test that fails deep in a call leaves nothing on the evaluator stack for the next test"},
+    {"match": r"testrun\.select_tests\.", "kind": "test-dir", "props": ["C26"], "input": "",
+     "files": {"a_test.gdn": "test smoke { assert(1 == 1) }\n\ntest only_in_a { assert(2 == 2) }\n",
+               "b_test.gdn": "test smoke { assert(1 == 2) }\n\ntest only_in_b { assert(3 == 3) }\n"},
+     "args": ["a_test.gdn", "b_test.gdn"],
+     "expect": {"py": "(rc == 0 and 'exit status 0 although the test `smoke` of b_test.gdn fails') or ('3 passed and 1 failed' not in out and 'summary does not account for the 4 selected tests: ' + out[-200:]) or ''"},
+     "note": "two files that both define a test named `smoke`: both are selected"},
+    {"match": r"testrun\.select_tests\.", "kind": "test-dir", "props": ["C26"], "input": "",
+     "files": {"a_test.gdn": "test alpha_one { assert(1 == 1) }\n\ntest beta { assert(1 == 2) }\n\ntest alpha_two { assert(1 == 3) }\n"},
+     "args": ["a_test.gdn", "-n", "alpha"],
+     "expect": {"py": "(rc == 0 and 'exit status 0 although the selected test alpha_two fails') or ('1 passed and 1 failed' not in out and 'the filter `alpha` does not select exactly alpha_one and alpha_two: ' + out[-200:]) or ''"},
+     "note": "a name filter selects exactly the tests whose name contains it"},
 ]
 
 
@@ -211,6 +247,25 @@ def build(tier):
                        requires=[("starts_at_clean_toplevel", "at_clean_toplevel(env.stack.0@)")],
                        ensures=[("returns_normally_only_if_no_test_failed", "failed(verdicts@) == 0")],
                        ret="verdicts", props=c26))
+    # which tests are run: exactly the test items whose name contains the `-n` filter, each once per occurrence, in file order
+    u.raw(SELECT_GLUE, kind="prelude")
+    SEL_RULES = [
+        rw.simple("R4", r"for item in &all_items \{", "let mut __i1: usize = 0; while __i1 < all_items.len() { let item = &all_items[__i1]; __i1 += 1;"),
+        rw.simple("R2", r"name_contains\.cloned\(\)\.unwrap_or_default\(\)", "vopt_string_or_default(name_contains)"),
+        rw.simple("R2", r"(\w+)\.name_sym\.name\.text\.contains\(&name_contains\)", r"vs_contains(&\1.name_sym.name.text, &name_contains)"),
+        rw.simple("local", r"vec!\[\]", "Vec::new()"),
+    ]
+    u.add_range_fn(TR, "run_tests_in_files", "let mut test_items: Vec<ToplevelItem>", "let summary = eval_tests(", exclusive=True,
+                   sig="pub fn select_tests(all_items: Vec<ToplevelItem>, name_contains: Option<&String>) -> (r: Vec<ToplevelItem>)",
+                   name="select_tests", suffix="\n    proof { assert(all_items@.take(all_items@.len() as int) =~= all_items@); }\n    test_items", rules=SEL_RULES,
+                   contract=Contract(
+                       ensures=[("runs_exactly_the_tests_matching_the_filter", "r@ == selected(all_items@, filter_text(name_contains))")],
+                       loops={1: dict(invariant=[("selected_so_far", "__i1 <= all_items@.len(), name_contains@ == filter_text(old_name_contains), test_items@ == selected(all_items@.take(__i1 as int), name_contains@)")],
+                                      body_prelude="proof { assert(all_items@.take(__i1 as int + 1).drop_last() =~= all_items@.take(__i1 as int)); }",
+                                      decreases="all_items@.len() - __i1")},
+                       hints=[dict(anchor="let name_contains", where="before", text="let ghost old_name_contains = name_contains;")],
+                       body_prelude="proof { assert(all_items@.take(0) =~= Seq::<ToplevelItem>::empty()); }",
+                       ret="r", props=c26))
     u.add_canary_proof()
     u.raw(common.FOOTER)
     return u
